@@ -22,7 +22,9 @@ run() {
   exec 9>$OUT/w$w/lock; flock 9
   cp $OUT/src/$k.go $R/$FILE
   if ! (cd $R && go build ./$PKG/ >/dev/null 2>&1); then echo -e "$line\tINVALID"; cp /repo/$FILE $R/$FILE; return; fi
-  res=$(bin/govc -repo $R -spec spec -units "$PKG.$unit" 2>&1 | tail -1)
+  # the unit and the closures inside it that are under contract themselves
+  us="$PKG.$unit"; for cu in $(grep -h "^//@ unit $unit\\$" /repo/$PKG/verif_contracts.go | awk '{print $3}'); do us="$us,$PKG.$cu"; done
+  res=$(bin/govc -repo $R -spec spec -units "$us" 2>&1 | tail -1)
   cp /repo/$FILE $R/$FILE
   if echo "$res" | grep -q " 0 problems"; then echo -e "$line\tSURVIVED"; else echo -e "$line\tkilled"; fi
 }
